@@ -312,3 +312,40 @@ Proof.
       * right. left. apply F1. split; [exact H1|]. split; [exact V|symmetry; apply Ffile; exact H1].
       * right. right. apply in_map_iff. exists (name, de). split; [reflexivity|]. apply M. rewrite (F3 name Nv), (D3 name Ndn). exact A.
 Qed.
+
+(* C07, one directory: the handler is invoked exactly for the items that do not verify, once each, in order *)
+Section DirLog.
+  Variable L : hashlib.
+
+  Definition failing (w : world) (c : vctx) (dp rp : list N) (it : item) : list call :=
+    match verify_path L w (pjoin dp (fst it)) (snd it) (vc_dev c) (vc_lm c) with
+    | Ok (false, diff) => [(pjoin rp (fst it), diff)]
+    | _ => []
+    end.
+
+  Lemma verify_one_log w c dp rp (it : item) lg b lg' : vc_pol c <> PolThrow ->
+    verify_one L w c (pjoin dp (fst it)) (pjoin rp (fst it)) (snd it) lg = Ok (b, lg') ->
+    lg' = lg ++ failing w c dp rp it.
+  Proof.
+    intros Hp. unfold verify_one, failing.
+    destruct (verify_path L w (pjoin dp (fst it)) (snd it) (vc_dev c) (vc_lm c)) as [[ok diff]|e]; cbn [bind]; [|discriminate].
+    destruct ok; [intros H; inversion H; subst; rewrite app_nil_r; reflexivity|].
+    destruct (apply_policy (vc_pol c) (pjoin rp (fst it))) as [|bb|] eqn:E.
+    - intros H. inversion H; subst. reflexivity.
+    - intros H. inversion H; subst. reflexivity.
+    - exfalso. destruct (vc_pol c); try discriminate. apply Hp. reflexivity.
+  Qed.
+
+  Theorem verify_items_log w c dp rp : vc_pol c <> PolThrow ->
+    forall its ret log b log', verify_items L w c dp rp its (Ok (ret, log)) = Ok (b, log') ->
+    log' = log ++ flat_map (failing w c dp rp) its.
+  Proof.
+    intros Hp. induction its as [|it r IH]; intros ret log b log' H.
+    - cbn in H. inversion H; subst. cbn. rewrite app_nil_r. reflexivity.
+    - cbn [verify_items fold_left bind] in H. cbn [flat_map].
+      destruct (verify_one L w c (pjoin dp (fst it)) (pjoin rp (fst it)) (snd it) log) as [[b1 lg1]|e] eqn:E1; cbn [bind] in H.
+      + fold (verify_items L w c dp rp r (Ok (ret && b1, lg1))) in H. apply IH in H.
+        rewrite (verify_one_log _ _ _ _ _ _ _ _ Hp E1) in H. rewrite H, <- app_assoc. reflexivity.
+      + fold (verify_items L w c dp rp r (Err e)) in H. rewrite verify_items_err in H. discriminate.
+  Qed.
+End DirLog.
